@@ -451,12 +451,55 @@ def class_programs(rep: Report, rng: Rng):
     rep.streams["class-programs"] = {"cases": n_prog, "disagreements": n_bad}
 
 
+
+# ------------------------------------------------------------------ dtype stream (real code vs the definition)
+
+def dtype_stream(rep: Report, rng: Rng):
+    """Scores arrive in half precision, double precision or as integers in practice.  Grid-valued scores are exact in
+    every one of these dtypes, so the definition (exact fractions) is the same — but counts of several hundred samples
+    are not representable in float16 / bfloat16, so any internal counting done in the score dtype shows here.
+    Functional and class forms, n large enough to pass 256 and 2048, weights absent (the class creates its own)."""
+    import torcheval.metrics as M
+    reps = 2 if rep.tier == "quick" else 10
+    for r in range(reps):
+        for dt in (torch.float16, torch.bfloat16, torch.float64):
+            n = rng.choice([300, 700]) if dt != torch.float16 else rng.choice([300, 2300])
+            xs = [rng.choice(G5 + [Fr(1, 8), Fr(3, 8), Fr(5, 8), Fr(7, 8)]) for _ in range(n)]
+            ts = [rng.choice([0, 1]) for _ in range(n)]
+            x = torch.tensor([float(v) for v in xs], dtype=dt)
+            t = torch.tensor(ts, dtype=torch.int64)
+            exp_auroc = o_auroc(xs, ts, [Fr(1)] * n)
+            curve = o_curve(xs, [v == 1 for v in ts])
+            exp_auprc = o_auprc(curve[0], curve[1])
+            cases = [("binary_auroc", call_real(F.binary_auroc, x, t), exp_auroc),
+                     ("binary_auprc", call_real(F.binary_auprc, x, t), exp_auprc)]
+            for cls, exp in ((M.BinaryAUROC, exp_auroc), (M.BinaryAUPRC, exp_auprc)):
+                def run_cls(cls=cls):
+                    m = cls()
+                    h = n // 3
+                    m.update(x[:h], t[:h]); m.update(x[h:], t[h:])
+                    return m.compute()
+                cases.append((cls.__name__, call_real(run_cls), exp))
+            for name, real, exp in cases:
+                rep.case(nontrivial_key=("dtype", name, str(dt), n, r), sample=None)
+                rep.count(f"dtype-stream:{str(dt).replace('torch.', '')}")
+                if real[0] != "ok":
+                    rep.count(f"dtype-stream:raises:{name}:{str(dt).replace('torch.', '')}")
+                    continue            # a dtype the function refuses is not a wrong value
+                got = float(real[1][0].reshape(-1)[0])
+                if not (abs(got - float(exp)) <= 1e-5 * max(1.0, abs(float(exp)))):
+                    rep.violation(f"C05|{name}|{str(dt).replace('torch.', '')}-scores|differs-from-definition",
+                                  f"{name} on {n} grid-valued {str(dt).replace('torch.', '')} scores returns {got} where the definition gives {float(exp)}",
+                                  {"kind": "dtype", "fn": name, "dtype": str(dt), "input": [float(v) for v in xs], "target": ts, "expected": float(exp), "got": got})
+                    return
+
 def run(rep: Report):
     rng = Rng(rep.seed * 1000003 + 5)
     from .. import opscheck; opscheck.check_ops(rep, ["curve"])
     deadline = time.time() + budget(rep.tier, 48, 800)
     check_cases(rep, all_cases(rng, rep.tier), "functional", deadline)
     class_programs(rep, Rng(rep.seed * 1000003 + 55))
+    dtype_stream(rep, Rng(rep.seed * 1000003 + 555))
 
 
 def search(rep: Report):
@@ -477,7 +520,25 @@ def search(rep: Report):
             return
 
 
+def _replay_dtype(r) -> bool:
+    import torcheval.metrics as M
+    dt = {"torch.float16": torch.float16, "torch.bfloat16": torch.bfloat16, "torch.float64": torch.float64}[r["dtype"]]
+    x = torch.tensor(r["input"], dtype=dt); t = torch.tensor(r["target"], dtype=torch.int64)
+    n = len(r["input"]); h = n // 3
+    def cls_run(cls):
+        m = cls(); m.update(x[:h], t[:h]); m.update(x[h:], t[h:]); return m.compute()
+    f = {"binary_auroc": lambda: F.binary_auroc(x, t), "binary_auprc": lambda: F.binary_auprc(x, t),
+         "BinaryAUROC": lambda: cls_run(M.BinaryAUROC), "BinaryAUPRC": lambda: cls_run(M.BinaryAUPRC)}[r["fn"]]
+    real = call_real(f)
+    if real[0] != "ok":
+        return True
+    got = float(real[1][0].reshape(-1)[0])
+    return abs(got - r["expected"]) <= 1e-5 * max(1.0, abs(r["expected"]))
+
+
 def replay(payload) -> bool:
+    if payload["replay"].get("kind") == "dtype":
+        return _replay_dtype(payload["replay"])
     c = payload["replay"]["case"]
     fn = c["fn"]
     kw = {}
